@@ -2,4 +2,5 @@ From Coq Require Import Extraction ExtrOcamlBasic.
 From LTV.C20 Require Import Model.
 Set Extraction Optimize.
 Extraction Language OCaml.
-Extraction "extracted/c20_model.ml" start step reject_build mask_num msize send_metadata_piece send_metadata_piece_repaired params_ok.
+Extraction "extracted/c20_model.ml" start step current_fixes all_fixes reject_build mask_num msize bytes_of
+  send_metadata_piece send_metadata_piece_old params_ok.
